@@ -73,7 +73,7 @@ def comps_of(w, tv, nz):
     return ids
 
 
-def run(rep: Report) -> None:
+def run(rep: Report, only_params: bool = False) -> None:
     prog = rep.prog
     rel = prog.module("sym_metanet.engines.casadi").relpath
     fi = prog.function("sym_metanet.engines.casadi", "Engine.to_function")
@@ -90,6 +90,8 @@ def run(rep: Report) -> None:
                         combos.append((st, compact, params, clamp, same))
     # compact levels outside {0,1,2} follow the documented <=0 / ==1 / >1 classes
     combos += [("SX", -1, True, False, False), ("SX", 5, True, False, False)]
+    if only_params:
+        combos = [c for c in combos if c[2] and not c[3] and not c[4]]
     n = 0
     for st, compact, params, clamp, same in combos:
         n += 1
@@ -173,7 +175,7 @@ def run(rep: Report) -> None:
                   "casadi.Function is built with allow_free: symbols that are not arguments stay free",
                   key="allow_free")
     rep.analysed["option_combinations"] = n
-    rep.floor("option combinations", n, 30)
+    rep.floor("option combinations", n, 6 if only_params else 30)
 
 
 def _short(seq, n=14):
